@@ -406,7 +406,7 @@ func c07Case(s *c07Sched, t *c07Trace) (input, l1 string) {
 	for i, p := range pos {
 		all[i] = c07Abs(p)
 	}
-	out = append(out, strings.Join(all, "~"))
+	out = append(out, "F:"+strings.Join(all, "~"))
 	return strings.Join(in, " ; "), strings.Join(out, " ; ")
 }
 
